@@ -123,7 +123,7 @@ func (p *faultProxy) handle(c net.Conn, mode, up string) {
 	case "stall":
 		io.Copy(io.Discard, c)
 		return
-	case "garbage", "negsize", "oversize":
+	case "garbage", "negsize", "oversize", "page":
 		buf := make([]byte, 4096)
 		for {
 			n, err := c.Read(buf)
@@ -141,8 +141,17 @@ func (p *faultProxy) handle(c net.Conn, mode, up string) {
 				reply = []byte{0xff, 0xff, 0xff, 0xf0, 'O', 'K'}
 			case "oversize":
 				reply = []byte{0x7f, 0xff, 0xff, 0xff, 'O', 'K'}
+			case "page":
+				// something that does not speak the protocol at all answers in the nsqlookupd's place (a front end's error
+				// page): far more bytes than nsqd will read of it
+				body := "<html><head><title>503 Service Temporarily Unavailable</title></head><body><center><h1>503 Service Temporarily Unavailable</h1></center><hr><center>front-end</center>" + strings.Repeat("<!-- padding to make the page longer than any frame header -->", 12) + "</body></html>\r\n"
+				reply = []byte(fmt.Sprintf("HTTP/1.1 503 Service Unavailable\r\nServer: front-end\r\nContent-Type: text/html\r\nContent-Length: %d\r\nConnection: close\r\n\r\n%s", len(body), body))
 			}
 			c.Write(reply)
+			if mode == "page" {
+				time.Sleep(20 * time.Millisecond)
+				return
+			}
 		}
 	}
 	u, err := net.DialTimeout("tcp", up, time.Second)
@@ -817,6 +826,19 @@ func runLookupSync(lc *lsCase, dir string) {
 			lc.failf("[badident] a topic created while nsqlookupd was unreachable, then one corrupted IDENTIFY answer: %s, still so after 80 heartbeat intervals", why)
 		}
 		return
+	case "page":
+		// something that does not speak the protocol answers in the nsqlookupd's place for a while (an error page, many
+		// times longer than a frame header) -- then the nsqlookupd is back
+		proxies[0].set("page", "", true)
+		admin("/topic/create?topic=duringpage")
+		admin("/channel/create?topic=duringpage&channel=c1")
+		time.Sleep(time.Duration(1+lc.Seed%3) * heartbeat)
+		proxies[0].set("pass", "", true)
+		admin("/topic/create?topic=afterpage")
+		if ok, why := converge(40 * heartbeat); !ok {
+			lc.failf("[page] nsqlookupd's place was taken by something answering with an error page for a while, then it was back: %s, still so after 40 heartbeat intervals", why)
+		}
+		return
 	case "precreate2":
 		// two lookupds known to nsqd; #1 goes away; #2 knows channel `pre` of topic `fresh2`
 		if len(lds) < 2 {
@@ -889,6 +911,19 @@ func runLookupSync(lc *lsCase, dir string) {
 			lc.Incon = "lookupd channel create failed"
 			return
 		}
+		// ... and a handful more (only while the faulty side keeps the creating request waiting: others publish meanwhile)
+		blocking := mode == "bodystall" || mode == "silent" || mode == "headstall" || mode == "drip"
+		var more []string
+		if blocking {
+			for i := 0; i < 5; i++ {
+				nm := fmt.Sprintf("pre%d", i)
+				if st, err := httpPost("http://" + lds[1].http + "/channel/create?topic=" + topic + "&channel=" + nm); err != nil || st != 200 {
+					lc.Incon = "lookupd channel create failed"
+					return
+				}
+				more = append(more, nm)
+			}
+		}
 		hfault.set(mode)
 		oc, err := dial(nd.TCP, "otherh")
 		if err != nil {
@@ -914,6 +949,16 @@ func runLookupSync(lc *lsCase, dir string) {
 			resp.Body.Close()
 			pubDone <- res{resp.StatusCode, nil}
 		}()
+		extra := 0
+		if blocking {
+			// while the creating request waits for the faulty side, other publishers find the topic and publish to it
+			time.Sleep(150 * time.Millisecond)
+			for i := 0; i < 5; i++ {
+				if st, _, err := nd.post("/pub?topic="+topic, []byte(fmt.Sprintf("meanwhile-%d", i))); err == nil && st == 200 {
+					extra++
+				}
+			}
+		}
 		// nsqd gives every lookupd query http-client-request-timeout (600 ms here); 25 times that is "stopped", not "slow"
 		limit := 15 * time.Second
 		select {
@@ -931,6 +976,29 @@ func runLookupSync(lc *lsCase, dir string) {
 			return
 		}
 		lc.SyncMs = time.Since(t0).Milliseconds()
+		if blocking {
+			// every channel the healthy nsqlookupd knew holds everything the topic has accepted so far, the messages that
+			// came in while the topic was being set up included
+			time.Sleep(200 * time.Millisecond)
+			if st, _, err := nd.stats(""); err == nil {
+				for _, ts := range st.Topics {
+					if ts.Name != topic {
+						continue
+					}
+					have := map[string]int64{}
+					for _, cs := range ts.Channels {
+						have[cs.Name] = cs.Depth + cs.InFlightCount + cs.DeferredCount
+					}
+					for _, nm := range append([]string{"pre"}, more...) {
+						if n, ok := have[nm]; !ok {
+							lc.failf("[precreate] one nsqlookupd's HTTP side was faulty (%s); the other knew channel `%s` for the topic, which was not created with it", mode, nm)
+						} else if n+ts.Depth != int64(1+extra) {
+							lc.failf("[precreate] one nsqlookupd's HTTP side was faulty (%s) and kept the creation of the topic waiting; %d messages were accepted meanwhile and one by the creating request: channel `%s`, which the other nsqlookupd knew, holds %d of them", mode, extra, nm, n+ts.Depth)
+						}
+					}
+				}
+			}
+		}
 		if err := oc.sub(topic, "other"); err != nil {
 			lc.Incon = err.Error()
 			return
@@ -948,15 +1016,22 @@ func runLookupSync(lc *lsCase, dir string) {
 			return
 		}
 		cn.cmd("RDY", "", "2")
-		fr, ok := cn.next(limit)
-		if !ok || fr.Type != 2 {
-			lc.failf("[stall] one nsqlookupd's HTTP side was faulty (%s); the message published to the fresh topic was acknowledged but not delivered within %s", mode, limit)
-			return
+		// `pre` gets everything the topic has accepted so far: the creating request's message and what came in meanwhile
+		sawFirst := false
+		for got := 0; got < 1+extra; got++ {
+			fr, ok := cn.next(limit)
+			if !ok || fr.Type != 2 {
+				lc.failf("[stall] one nsqlookupd's HTTP side was faulty (%s); %d message(s) were published to the fresh topic and acknowledged, the channel it started with was sent %d within %s", mode, 1+extra, got, limit)
+				return
+			}
+			if string(fr.Body) == "first" {
+				sawFirst = true
+			}
+			cn.cmd("FIN", fr.ID, "")
 		}
-		if string(fr.Body) != "first" {
+		if !sawFirst {
 			lc.failf("[precreate] one nsqlookupd's HTTP side was faulty (%s); the other knew channel `pre` for the topic, which did not receive the topic's first message", mode)
 		}
-		cn.cmd("FIN", fr.ID, "")
 		// and the nsqd goes on publishing and delivering
 		if st, _, err := nd.post("/pub?topic="+topic, []byte("second")); err != nil || st != 200 {
 			lc.failf("[stall] second publish failed: %v %d", err, st)
@@ -1116,7 +1191,7 @@ func runLookupSync(lc *lsCase, dir string) {
 		}
 	}()
 	nsteps := 12 + rng.Intn(16)
-	modes := []string{"close", "stall", "garbage", "negsize", "oversize", "cut", "restart", "pass", "badident"}
+	modes := []string{"close", "stall", "garbage", "negsize", "oversize", "cut", "restart", "pass", "badident", "page"}
 	for i := 0; i < nsteps; i++ {
 		switch rng.Intn(3) {
 		case 0, 1:
